@@ -22,7 +22,7 @@ func init() {
 		Explanation: "C02.tab: hundreds/tens/units have 10 entries and entry d is the canonical subtractive numeral for digit d built by the checker from (one, five, ten); toHundreds/toTens/toUnits are extracted as decision tables (value = 4 / 9, long-form flag bit): (4, FormatLong4·10^k) ↦ one×4, (9, FormatLong9·10^k) ↦ five+one×4 with the flag constant of that decimal position, otherwise table[value]; thousand = 'M'. " +
 			"C02.decomp: DefaultFormatter splits n by a chain of divisions by 1000, 100, 10, each dividend being the previous remainder; the first quotient is the trip count of the loop writing 'M', the next quotients feed toHundreds/toTens, the last remainder toUnits; the writes occur in that order; f is passed unchanged. " +
 			"C02.alpha: every literal the formatter can emit for a position, in both letter cases, is a member of that position's capture-group language of roman.pattern (so Valid and the parser accept every formatted numeral). " +
-			"C02.lower: toLower maps each of the seven letters to its own ASCII lower case and nothing else; it is applied only when FormatLowerCase is set, to the appended bytes. C02.case: the parser's value function is closed under letter case (shared with C10.case). " +
+			"C02.lower: toLower maps each of the seven letters to its own ASCII lower case and nothing else; it is applied only when FormatLowerCase is set, to the appended bytes. C02.value: the parser's value function, extracted as a decision table, maps every literal the formatter can emit (both letter cases) back to its digit. " +
 			"C02.zero: n = 0 ↦ buffer unchanged; empty input ↦ (0, nil) unless RuleDisableEmptyAsZero. S-DELEG with verb table L, l, R, r, default.",
 		NotDecided:  []string{"that parseGroup's arithmetic ((4+l)*unit, l*unit) inverts the digit tables for every digit is value-level and not evaluated", "which n fit within MaxInputLength (128 bytes)"},
 		Assumptions: []string{"bits.Div64(0, x, c) returns quotient and remainder of x / c"},
@@ -37,29 +37,16 @@ func runC02(e *Env) {
 	ruleC02Alpha(e, lits)
 	ruleC02Lower(e)
 	ruleC02Zero(e)
-	// the value function must be closed under letter case (P3 lived here)
-	if dp := e.Fn("C02.case", "roman", "DefaultParser"); dp != nil {
-		alphabet := romanAlphabet(e)
-		if pg := e.Fn("C02.case", "roman", "parseGroup"); pg != nil {
-			e.Flow(func(c *flow.Ctx) {
-				c.RuleCaseClosure(pg, 0, alphabet)
-				for i := range c.Out {
-					c.Out[i].Rule = "C02.case"
-				}
-			})
-		}
-	}
 	ruleGroupValue(e, "C02.value", romanDigits)
 	e.S.Floor("C02.value", 40)
 	ruleDeleg(e, "C02.deleg", "roman")
-	ruleLimit(e, "C02.limit", "roman")
-	e.S.Floor("C02.limit", 4)
+	ruleLimitAccept(e, "C02.limit", "roman")
+	e.S.Floor("C02.limit", 2)
 	e.S.Floor("C02.tab", 36)
 	e.S.Floor("C02.decomp", 6)
 	e.S.Floor("C02.alpha", 36)
 	e.S.Floor("C02.lower", 7)
 	e.S.Floor("C02.zero", 3)
-	e.S.Floor("C02.case", 1)
 	e.S.Floor("C02.deleg", 16)
 }
 
